@@ -409,3 +409,7 @@ def replay(run, data) -> None:
     for k in range(6):
         check_tree(run, sub_rng(run.seed, 'replay', k), tree, 'replay', k, share=bool(case.get('share')))
     run.case('pad', True)
+
+
+# (kept at the end of the file so that the text above stays the description the check was first built to)
+RULE += ' ' + 'Later additions: equal sub-descriptions become ONE shared object in a third of the trees; parse deliveries also through a pre-built Tokenizer with a file name (str / path object); serialise(file) into StringIO / a list-subclass collector (falsy while empty) / a real text file / an object with write() only; the reference is compared with the description the tree was built from, and renamed nodes must report the new name.'
